@@ -254,6 +254,9 @@ class WritableVersion(dns.zone.WritableVersion):
         cursor = self.nodes.cursor()  # pyright: ignore
         cursor.seek(name, False)
         updates = []
+        # When clearing, the topmost NS owner in the subtree we most recently saw; it
+        # becomes a zone cut itself and everything beneath it stays glue.
+        promoted: dns.name.Name | None = None
         while True:
             elt = cursor.next()
             if elt is None:
@@ -270,7 +273,18 @@ class WritableVersion(dns.zone.WritableVersion):
                 node = new_node
             assert isinstance(node, Node)
             if is_glue:
-                node.flags |= NodeFlags.GLUE
+                # Everything beneath a cut is glue, including former cuts.
+                if ename in self.delegations:
+                    self.delegations.discard(ename)
+                node.flags = NodeFlags.GLUE
+            elif promoted is not None and ename.is_subdomain(promoted):
+                node.flags = NodeFlags.GLUE
+            elif node.get_rdataset(self.zone.rdclass, dns.rdatatype.NS) is not None:
+                # An NS owner that was occluded by the removed cut is now the
+                # topmost one, i.e. a zone cut.
+                node.flags = NodeFlags.DELEGATION
+                self.delegations.add(ename)
+                promoted = ename
             else:
                 node.flags &= ~NodeFlags.GLUE
             # We don't update node here as any insertion could disturb the
